@@ -64,7 +64,7 @@ def u_base_init(I):
             return [('range None stored', z3.BoolVal(r is None))]
         return [('range stored as a pair with lower <= upper',
                  z3.And(r[0] == lo, r[1] == hi, lo <= hi) if isinstance(r, tuple) and len(r) == 2 else z3.BoolVal(False))]
-    check_outcome(I, out, raises={'AssertionError': bad}, returns=posts, site='ThermochemBase.__init__')
+    check_outcome(I, out, raises={'*': bad}, returns=posts, site='ThermochemBase.__init__')
     return {'inputs': {}}
 
 
